@@ -28,7 +28,10 @@ theorem setheader_ctl (s : State) (av : List Name) : (setheader s av).ctl = .con
 theorem setstatpath_ctl (s : State) (av : List Name) : (setstatpath s av).ctl = .cont := rfl
 theorem setonpath_ctl (s : State) (av : List Name) : (setonpath s av).ctl = .cont := by unfold setonpath; split <;> rfl
 theorem setoffpath_ctl (s : State) (av : List Name) : (setoffpath s av).ctl = .cont := by unfold setoffpath; split <;> rfl
-theorem settimeout_ctl (s : State) (av : List Name) : (settimeout s av).ctl = .cont := by unfold settimeout; split <;> rfl
+theorem settimeout_ctl (s : State) (av : List Name) : (settimeout s av).ctl = .cont := by
+  unfold settimeout; split
+  · rfl
+  · simp only; split <;> rfl
 
 theorem setupPlug_fatal {s : State} {p h : Name} {par : Option Name} {c : Ctl}
     (hf : setupPlug s p h par = .fatal c) : c = .exit 1 := by
@@ -118,9 +121,21 @@ theorem setpath_ctl (s : State) (av : List Name) :
   · left; rfl
 
 /-- a state from which `stat` / `on` / `off` are described by the machine theorems: the table handed to the machine is
-    well-formed (every parent defined, no cycle), every plug has a status path, the stored time-out does not overflow -/
+    well-formed (every parent defined, no cycle), every plug has a status path -/
 def Safe (s : State) : Prop :=
-  Redfish.WF (mCfg s) = true ∧ allStatPaths s = true ∧ timeoutOverflow s = false
+  Redfish.WF (mCfg s) = true ∧ allStatPaths s = true
+
+/-- the stored time-out fits an `int` (what `settimeout` guarantees since repair 7f04ec7; 60 at start) and the clock
+    is far from the end of `long`: `cmd_timeout > LONG_MAX - now` in `powermsg_create` is never true -/
+def TimeoutOK (s : State) : Prop := s.cmdTimeout ≤ INT_MAX ∧ (s.now : Int) ≤ LONG_MAX - INT_MAX
+
+instance (s : State) : Decidable (TimeoutOK s) := by unfold TimeoutOK; exact inferInstance
+
+theorem TimeoutOK.noOverflow {s : State} (h : TimeoutOK s) : timeoutOverflow s = false := by
+  unfold timeoutOverflow
+  obtain ⟨h1, h2⟩ := h
+  simp only [decide_eq_false_iff_not, Int.not_lt]
+  omega
 
 instance (s : State) : Decidable (Safe s) := by unfold Safe; exact inferInstance
 
@@ -232,19 +247,19 @@ theorem powerCmd_ctl (s : State) (cmd : Redfish.Cmd) (av : List Name) : PowerCla
 def StepClass (s : State) (w : Option Name) (c : Ctl) : Prop :=
   c = .cont ∨
   (c = .exit 0 ∧ w = some (lit "quit")) ∨
-  (c = .exit 1 ∧ (w = some (lit "setplugs") ∨ w = some (lit "setpath") ∨ (isPowerWord w ∧ timeoutOverflow s = true))) ∨
+  (c = .exit 1 ∧ (w = some (lit "setplugs") ∨ w = some (lit "setpath"))) ∨
   (c = bignum ∧ (w = some (lit "setplugs") ∨ w = some (lit "setpath") ∨ isPowerWord w)) ∨
   (isPowerWord w ∧ Stuck c ∧ (Redfish.WF (mCfg s) = false ∨ allStatPaths s = false))
 
-theorem StepClass.ofPower {s : State} {w : Option Name} {c : Ctl} (hw : isPowerWord w) (h : PowerClass s c) :
-    StepClass s w c := by
+theorem StepClass.ofPower {s : State} {w : Option Name} {c : Ctl} (ht : TimeoutOK s) (hw : isPowerWord w)
+    (h : PowerClass s c) : StepClass s w c := by
   rcases h with h | h | h | h
   · left; exact h
-  · right; right; left; exact ⟨h.1, Or.inr (Or.inr ⟨hw, h.2⟩)⟩
+  · rw [ht.noOverflow] at h; exact absurd h.2 (by simp)
   · right; right; right; left; exact ⟨h, Or.inr (Or.inr hw)⟩
   · right; right; right; right; exact ⟨hw, h⟩
 
-theorem processCmd_class (s : State) (av : List Name) : StepClass s av.head? (processCmd s av).ctl := by
+theorem processCmd_class (s : State) (av : List Name) (ht : TimeoutOK s) : StepClass s av.head? (processCmd s av).ctl := by
   unfold processCmd
   split
   · left; rfl
@@ -282,25 +297,25 @@ theorem processCmd_class (s : State) (av : List Name) : StepClass s av.head? (pr
     · rw [if_pos h]
       rcases setpath_ctl s args with h' | h' | h'
       · left; exact h'
-      · right; right; left; exact ⟨h', Or.inr (Or.inl (by rw [h]))⟩
+      · right; right; left; exact ⟨h', Or.inr (by rw [h])⟩
       · right; right; right; left; exact ⟨h', Or.inr (Or.inl (by rw [h]))⟩
     rw [if_neg h]; clear h
     by_cases h : c = lit "settimeout"
     · rw [if_pos h]; left; exact settimeout_ctl _ _
     rw [if_neg h]; clear h
     by_cases h : c = lit "stat"
-    · rw [if_pos h]; exact StepClass.ofPower (Or.inl (by rw [h])) (powerCmd_ctl _ _ _)
+    · rw [if_pos h]; exact StepClass.ofPower ht (Or.inl (by rw [h])) (powerCmd_ctl _ _ _)
     rw [if_neg h]; clear h
     by_cases h : c = lit "on"
-    · rw [if_pos h]; exact StepClass.ofPower (Or.inr (Or.inl (by rw [h]))) (powerCmd_ctl _ _ _)
+    · rw [if_pos h]; exact StepClass.ofPower ht (Or.inr (Or.inl (by rw [h]))) (powerCmd_ctl _ _ _)
     rw [if_neg h]; clear h
     by_cases h : c = lit "off"
-    · rw [if_pos h]; exact StepClass.ofPower (Or.inr (Or.inr (by rw [h]))) (powerCmd_ctl _ _ _)
+    · rw [if_pos h]; exact StepClass.ofPower ht (Or.inr (Or.inr (by rw [h]))) (powerCmd_ctl _ _ _)
     rw [if_neg h]; left; rfl
 
 /-- every piece of input, any bytes, in any state -/
-theorem step_class (s : State) (buf : List Char) : StepClass s (firstWord buf) (step s buf).ctl :=
-  processCmd_class s _
+theorem step_class (s : State) (buf : List Char) (ht : TimeoutOK s) : StepClass s (firstWord buf) (step s buf).ctl :=
+  processCmd_class s _ ht
 
 /-- `quit` ends the helper with status 0, whatever follows it on the line -/
 theorem step_quit (s : State) (buf : List Char) (h : firstWord buf = some (lit "quit")) :
@@ -319,18 +334,17 @@ theorem step_quit (s : State) (buf : List Char) (h : firstWord buf = some (lit "
 
 /-- from a `Safe` state, a line that is not `setplugs` / `setpath` and has no 20-digit number in a range comes back to
     the prompt unless it is `quit` -/
-theorem step_safe (s : State) (buf : List Char) (hs : Safe s)
+theorem step_safe (s : State) (buf : List Char) (hs : Safe s) (ht : TimeoutOK s)
     (h1 : firstWord buf ≠ some (lit "setplugs")) (h2 : firstWord buf ≠ some (lit "setpath"))
     (hb : (step s buf).ctl ≠ bignum) :
     (step s buf).ctl = .cont ∨ ((step s buf).ctl = .exit 0 ∧ firstWord buf = some (lit "quit")) := by
-  obtain ⟨hw, hp, ht⟩ := hs
-  rcases step_class s buf with h | h | h | h | h
+  obtain ⟨hw, hp⟩ := hs
+  rcases step_class s buf ht with h | h | h | h | h
   · left; exact h
   · right; exact h
-  · rcases h.2 with h' | h' | h'
+  · rcases h.2 with h' | h'
     · exact absurd h' h1
     · exact absurd h' h2
-    · rw [ht] at h'; exact absurd h'.2 (by simp)
   · exact absurd h.1 hb
   · rcases h.2.2 with h' | h'
     · rw [hw] at h'; cases h'
@@ -639,7 +653,9 @@ theorem processCmd_inv (s : State) (av : List Name) (h : TInv s) :
     · rw [if_pos h1]; exact setpath_inv s args h
     rw [if_neg h1]; clear h1
     by_cases h1 : c = lit "settimeout"
-    · rw [if_pos h1]; unfold settimeout; split <;> exact ⟨rfl, h⟩
+    · rw [if_pos h1]; unfold settimeout; split
+      · exact ⟨rfl, h⟩
+      · simp only; split <;> exact ⟨rfl, h⟩
     rw [if_neg h1]; clear h1
     by_cases h1 : c = lit "stat"
     · rw [if_pos h1]; exact ⟨(powerCmd_frame _ _ _).1, TInv_of_frame h (powerCmd_frame _ _ _)⟩
@@ -932,14 +948,12 @@ theorem setpath_invalid_command (s : State) (a0 a1 a2 : Name) (rest : List Name)
     setpath s (a0 :: a1 :: a2 :: rest) = ok s [lit "setpath: invalid command specified"] := by
   unfold setpath; simp only; rw [if_pos h]
 
-theorem settimeout_out (s : State) (a : Name) (rest : List Name) :
-    (settimeout s (a :: rest)).out =
-      (if (strtol a).2.2 = true ∨ (strtol a).2.1 ≠ a.length ∨ (strtol a).1 ≤ 0 then [lit "invalid timeout specified"] else []) ∧
-    (settimeout s (a :: rest)).st.cmdTimeout = (strtol a).1 := by
+theorem settimeout_spec (s : State) (a : Name) (rest : List Name) :
+    settimeout s (a :: rest) =
+      if (strtol a).2.2 = true ∨ (strtol a).2.1 ≠ a.length ∨ (strtol a).1 ≤ 0 ∨ (strtol a).1 > INT_MAX
+      then ok s [lit "invalid timeout specified"] else ok { s with cmdTimeout := (strtol a).1 } := by
   unfold settimeout
-  simp only [ok_out, ok_st, Bool.or_eq_true, bne_iff_ne, ne_eq, decide_eq_true_eq, and_true]
-  congr 1
-  simp only [or_assoc]
+  simp only [Bool.or_eq_true, bne_iff_ne, ne_eq, decide_eq_true_eq, or_assoc]
 
 /-- **`setplugs` accepted** (equal counts, no diagnostic, back at the prompt): for every position `j` the `j`-th plug
     name and the `j`-th index string exist, the index string is a valid index naming host `host`, and — unless the same
@@ -1136,7 +1150,7 @@ theorem resolved_known (s : State) (names : List Name) :
 /-- `dispatch` from a `Safe` state is the machine -/
 theorem dispatch_safe (s : State) (cmd : Redfish.Cmd) (pre : List Name) (ts : List Nat) (hs : Safe s) (hne : ts ≠ []) :
     dispatch s cmd pre ts = runMachine s cmd pre ts := by
-  obtain ⟨hw, hp, _⟩ := hs
+  obtain ⟨hw, hp⟩ := hs
   unfold dispatch
   have h1 : ts.isEmpty = false := by cases ts with | nil => exact absurd rfl hne | cons => rfl
   simp only [h1, Bool.false_eq_true, if_false, hp, Bool.not_true, Bool.and_false, hw, if_true]
@@ -1155,7 +1169,8 @@ theorem runMachine_nil (s : State) (cmd : Redfish.Cmd) (pre : List Name) :
     machine's lines `M` for exactly the known names in expression order: one line per known target (`linePlug` of `M`
     is a permutation of the targets), none of them an "unknown plug" line -/
 theorem powerCmd_resolved (s : State) (cmd : Redfish.Cmd) (a : Name) (rest : List Name) (hl : Hostlist)
-    (hs : Safe s) (hlk : Linked s) (hp : PathsFor s cmd) (hb : hlArgOK a = true) (hc : hlCreate a = some hl) :
+    (hs : Safe s) (ht : TimeoutOK s) (hlk : Linked s) (hp : PathsFor s cmd) (hb : hlArgOK a = true)
+    (hc : hlCreate a = some hl) :
     let names := expand hl
     let T := names.filterMap (mIndex s.plugMap)
     let M := (Redfish.runCmd (mCfg s) (mSt s) cmd T).1
@@ -1164,7 +1179,7 @@ theorem powerCmd_resolved (s : State) (cmd : Redfish.Cmd) (a : Name) (rest : Lis
       (names.filter fun n => (mIndex s.plugMap n).isNone).map unknownLine ++ M.map (render s) ∧
     (M.map Redfish.linePlug).Perm T ∧ (∀ l ∈ M, Redfish.isUnk l = false) := by
   intro names T M
-  have hov : timeoutOverflow s = false := hs.2.2
+  have hov : timeoutOverflow s = false := ht.noOverflow
   have hw := hs.1
   have hres := resolveLoop_spec s cmd hlk hp names
   have hperm : (M.map Redfish.linePlug).Perm T := Redfish.runCmd_plugs hw _ _ _
